@@ -13,47 +13,16 @@ Ltac zblack_in H :=
   cbv -[Z.add Z.sub Z.mul Z.opp Z.div Z.modulo Z.quot Z.rem Z.ltb Z.leb Z.eqb Z.pow Z.land Z.lor Z.lxor
         Z.lnot andb orb negb Z.lt Z.le in_rangeb wrap] in H.
 
-Ltac is_num r := match r with Z0 => idtac | Zpos _ => idtac | Zneg _ => idtac end.
-Ltac is_bool r := match r with true => idtac | false => idtac end.
-
-(* numerals for the closed instances of wrap / in_rangeb / comparisons / arithmetic *)
+(* numerals for the closed instances of wrap / in_rangeb, then arithmetic on numerals *)
 Ltac eval_closed :=
-  repeat match goal with
-  | |- context [wrap ?t ?v] =>
-      is_num v; let r := eval vm_compute in (wrap t v) in is_num r; change (wrap t v) with r
-  | |- context [in_rangeb ?t ?v] =>
-      is_num v; let r := eval vm_compute in (in_rangeb t v) in is_bool r; change (in_rangeb t v) with r
-  | |- context [Z.ltb ?a ?b] =>
-      is_num a; is_num b; let r := eval vm_compute in (Z.ltb a b) in change (Z.ltb a b) with r
-  | |- context [Z.leb ?a ?b] =>
-      is_num a; is_num b; let r := eval vm_compute in (Z.leb a b) in change (Z.leb a b) with r
-  | |- context [Z.eqb ?a ?b] =>
-      is_num a; is_num b; let r := eval vm_compute in (Z.eqb a b) in change (Z.eqb a b) with r
-  | |- context [Z.opp ?a] =>
-      is_num a; let r := eval vm_compute in (Z.opp a) in change (Z.opp a) with r
-  | |- context [Z.sub ?a ?b] =>
-      is_num a; is_num b; let r := eval vm_compute in (Z.sub a b) in change (Z.sub a b) with r
-  | |- context [Z.add ?a ?b] =>
-      is_num a; is_num b; let r := eval vm_compute in (Z.add a b) in change (Z.add a b) with r
-  | |- context [Z.mul ?a ?b] =>
-      is_num a; is_num b; let r := eval vm_compute in (Z.mul a b) in change (Z.mul a b) with r
-  | |- context [Z.lxor ?a ?b] =>
-      is_num a; is_num b; let r := eval vm_compute in (Z.lxor a b) in change (Z.lxor a b) with r
-  | |- context [Z.land ?a ?b] =>
-      is_num a; is_num b; let r := eval vm_compute in (Z.land a b) in change (Z.land a b) with r
-  | |- context [Z.lor ?a ?b] =>
-      is_num a; is_num b; let r := eval vm_compute in (Z.lor a b) in change (Z.lor a b) with r
-  | |- context [Z.lnot ?a] =>
-      is_num a; let r := eval vm_compute in (Z.lnot a) in change (Z.lnot a) with r
-  | |- context [Z.quot ?a ?b] =>
-      is_num a; is_num b; let r := eval vm_compute in (Z.quot a b) in change (Z.quot a b) with r
-  | |- context [Z.rem ?a ?b] =>
-      is_num a; is_num b; let r := eval vm_compute in (Z.rem a b) in change (Z.rem a b) with r
-  | |- context [Z.div ?a ?b] =>
-      is_num a; is_num b; let r := eval vm_compute in (Z.div a b) in change (Z.div a b) with r
-  | |- context [Z.modulo ?a ?b] =>
-      is_num a; is_num b; let r := eval vm_compute in (Z.modulo a b) in change (Z.modulo a b) with r
-  end.
+  repeat first
+  [ match goal with
+    | |- context [wrap ?t ?v] =>
+        is_num v; let r := eval vm_compute in (wrap t v) in is_num r; change (wrap t v) with r
+    | |- context [in_rangeb ?t ?v] =>
+        is_num v; let r := eval vm_compute in (in_rangeb t v) in is_bool r; change (in_rangeb t v) with r
+    end
+  | z_eval_closed_step ].
 
 Ltac expose_ranges :=
   cbv [in_rangeb wrap tmin tmax tmod thalf pow2 pow2h bits sgn] in *.
